@@ -1,13 +1,14 @@
 #!/bin/bash
-# runs the registered quick check of each seed's own property against the seed (scratch copy), logs to /tmp/seed_out/<prop>/detect<n>.log
-for d in ${SEEDS:-/tmp/seed_out/C*}; do
-  p=$(basename $d)
+# runs the registered check of each seed's own property against the seed (scratch copy); quick first, thorough if quick misses it
+# usage: seed_detect_all.sh [dirs...]   env: EXTRA="C02 C15" extra properties to try, FORCE=1 redo
+for d in ${@:-/tmp/seed_out/C*/}; do
+  d=${d%/}; p=$(basename $d)
   for n in 1 2 3; do
-    f=$d/change$n.diff; [ $n = 3 ] && f=$d/extra_change3.diff
+    f=$d/change$n.diff
     [ -f $f ] || continue
     [ -f $d/detect$n.log ] && [ -z "${FORCE:-}" ] && continue
-    echo "### $p-$n $(date +%T)"
-    /verif/bin/seed_check.sh $f quick $p $EXTRA > $d/detect$n.log 2>&1
-    cat $d/detect$n.log | cut -c1-300
+    /verif/bin/seed_check.sh $f quick $p ${EXTRA:-} > $d/detect$n.log 2>&1
+    if ! grep -q "VIOLATION" $d/detect$n.log; then /verif/bin/seed_check.sh $f thorough $p >> $d/detect$n.log 2>&1; fi
+    echo "### $p-$n $(date +%T) $(grep -c VIOLATION $d/detect$n.log) violation lines"; cut -c1-400 $d/detect$n.log
   done
 done
